@@ -240,12 +240,12 @@ type C07Grow struct {
 
 func TestC07BufferGrowth(t *testing.T) {
 	cases := []C07Grow{
-		{Entries: 11, ValLen: 1 << 20, Hint: -1},       // crosses the first 10 MiB step
-		{Entries: 23, ValLen: 1 << 20, Hint: -1},       // crosses 10 MiB and the doubling to 20 MiB
-		{Entries: 3, ValLen: 3 << 20, Hint: 7 << 20},   // hint > 5 MiB: doubling path from the start
-		{Entries: 40000, ValLen: 300, Hint: -1},        // many small entries across the first step
-		{Entries: 2, ValLen: 11 << 20, Hint: -1},       // a single entry larger than the whole step
-		{Entries: 1, ValLen: 20, Hint: 0},              // tiny
+		{Entries: 11, ValLen: 1 << 20, Hint: -1},     // crosses the first 10 MiB step
+		{Entries: 23, ValLen: 1 << 20, Hint: -1},     // crosses 10 MiB and the doubling to 20 MiB
+		{Entries: 3, ValLen: 3 << 20, Hint: 7 << 20}, // hint > 5 MiB: doubling path from the start
+		{Entries: 40000, ValLen: 300, Hint: -1},      // many small entries across the first step
+		{Entries: 2, ValLen: 11 << 20, Hint: -1},     // a single entry larger than the whole step
+		{Entries: 1, ValLen: 20, Hint: 0},            // tiny
 	}
 	vcore.RunEnum(t, vcore.Config{Property: "C07",
 		Rule: "enumerated buffer-growth scenarios of the streaming writer (entries x value size x initial hint); non-trivial = total size > 10 MiB"},
@@ -300,15 +300,15 @@ func TestC07BufferGrowth(t *testing.T) {
 
 // ReOp is one re-encoding step a conforming encoder could have produced.
 type ReOp struct {
-	Level int    `json:"level"` // 0 snapshot, 1 meta, 2 dbi, 3 kv
-	Msg   int    `json:"msg"`   // which message of that level (mod count); -1 = all
-	Kind  string `json:"kind"`  // swap | rotate | reverse | unknown | dup
-	I     int    `json:"i"`
-	J     int    `json:"j"`
-	Field int    `json:"field,omitempty"`
-	WT    int    `json:"wt,omitempty"`
+	Level int         `json:"level"` // 0 snapshot, 1 meta, 2 dbi, 3 kv
+	Msg   int         `json:"msg"`   // which message of that level (mod count); -1 = all
+	Kind  string      `json:"kind"`  // swap | rotate | reverse | unknown | dup
+	I     int         `json:"i"`
+	J     int         `json:"j"`
+	Field int         `json:"field,omitempty"`
+	WT    int         `json:"wt,omitempty"`
 	Data  model.Bytes `json:"data,omitempty"`
-	Num   uint64 `json:"num,omitempty"`
+	Num   uint64      `json:"num,omitempty"`
 }
 
 type C07Compat struct {
